@@ -82,6 +82,13 @@ theorem powAux_eq {M : Type*} [CommMonoid M] (r b : M) (e fuel : ℕ) (h : e < 2
 theorem pow_binary {M : Type*} [CommMonoid M] (b : M) (e : ℕ) (h : e < 2 ^ 64) : powAux 1 b e 64 = b ^ e := by
   simpa using powAux_eq 1 b e 64 h
 
+/-- C09: one back-substitution step of batch inversion in a field: if z is the inverse of the prefix product P_prev * s, then
+    z * P_prev is the inverse of s (the element delivered) and z * s is the inverse of P_prev (the invariant for the next step). -/
+theorem batch_inverse_step {K : Type*} [Field K] (Pprev s z : K) (hs : s ≠ 0) (hP : Pprev ≠ 0) (hz : z = (Pprev * s)⁻¹) :
+    z * Pprev = s⁻¹ ∧ z * s = Pprev⁻¹ := by
+  subst hz
+  constructor <;> field_simp
+
 /-- C10: one extended-Euclid step in field terms preserves the Bezout invariants  t*a = r  and  newt*a = newr. -/
 theorem euclid_step (a t r newt newr q : R) (h1 : t * a = r) (h2 : newt * a = newr) :
     newt * a = newr ∧ (t - q * newt) * a = r - q * newr := by
